@@ -166,7 +166,16 @@ static void runScenario(int mode, int opts, const std::vector<std::vector<int> >
     g_out->flush();
 }
 
-static void onTerminate() { if (g_out) { g_out->line(std::string("{\"e\":\"Crash\",\"what\":\"terminate\"}")); g_out->flush(); } _exit(0); }
+static void onTerminate()
+{
+    std::string what = "terminate";
+    try { std::exception_ptr p = std::current_exception(); if (p) std::rethrow_exception(p); }
+    catch (vpsc::CriticalFailure &f) { what = "terminate: assertion: " + f.what(); }
+    catch (std::exception &e) { what = std::string("terminate: ") + e.what(); }
+    catch (...) { what = "terminate: unknown exception"; }
+    if (g_out) { vt::J j; j.obj().k("e").s("Crash").k("what").s(what).end(); g_out->line(j); g_out->flush(); }
+    _exit(0);
+}
 static void onSignal(int s) { if (g_out) { g_out->line(std::string("{\"e\":\"Crash\",\"what\":\"signal ") + std::to_string(s) + "\"}"); g_out->flush(); } _exit(0); }
 
 int main(int argc, char **argv)
